@@ -62,6 +62,54 @@ def genVisCases (tier : String) (seed : Nat) (tagp : String) : Array Case := Id.
       out := out.push (visCase s!"{tagp}-{i}-{v}" kind s v)
   pure out
 
+/-- texts that stress the JSON string escaping, one special character class per text -/
+def hostileVisTexts : Array String := #["plain", "back\\slash", "C:\\Users\\records", "trailing\\", "say \"hi\"", "tab\there", "line\nbreak",
+  "cr\rx", "crlf\r\nx", "bell\x07x", "esc\x1b[0m", "del\x7fx", "sep\u2028x", "ünï çødé 字 😀", "<script>alert(1)</script>", "100% %s %d",
+  "a/b", "'apostrophe", "mixed \\ \" \t"]
+
+def hostileVisAnn : Array String := #["type=x", "k=\"v\"", "path=C:\\x", "a=b,c=d"]
+
+/-- visual cases whose texts, annotations, properties and nested values carry hostile characters -/
+def genVisHostile (tier : String) (seed : Nat) (tagp : String) : Array Case := Id.run do
+  let n := if tier = "thorough" then 600 else 60
+  let mut out : Array Case := #[]
+  let mut rng : Rng := ⟨UInt64.ofNat (seed * 86028121 + 13)⟩
+  for i in [0:n] do
+    let (t1, r1) := pickA hostileVisTexts rng
+    let (t2, r2) := pickA hostileVisTexts r1
+    let (t3, r3) := pickA hostileVisTexts r2
+    let (an, r4) := pickA hostileVisAnn r3
+    let (shape, r5) := below 5 r4
+    let (v, r6) := below 32 r5
+    rng := r6
+    let text :=
+      match shape with
+      | 0 => s!"A({t1}) I(({t2} [AND] {t3}))"
+      | 1 => s!"A[{an}]({t1}) D(must) I({t2}) Cac[{an}]" ++ "{" ++ s!"A(b) I({t3})" ++ "}"
+      | 2 => s!"A({t1}) " ++ "{" ++ s!"I({t2}) [XOR] I({t3})" ++ "}" ++ " Bdir(x)"
+      | 3 => s!"A1({t1}) A1,p[{an}]({t2}) I({t3}) Bdir,p(p) Bdir(({t1} {t2} [OR] y) z)"
+      | _ => s!"A({t1}) A,p" ++ "{" ++ s!"A({t2}) I({t3})" ++ "}" ++ s!" I(acts) Bdir1,p({t2}) Bdir1(o1) Bdir(o2)"
+    let o := visOptsOfNat v
+    out := out.push { id := s!"{tagp}-h{i}", op := "vis", args := visArgs text o, exp := Json.null, tag := "hostile",
+                      note := Json.mkObj [("kf", ("" : Json)), ("v", (v : Json)), ("hostile", (true : Json))] }
+  pure out
+
+/-- hostile cases: a rejection is no claim of success; successful output must be valid JSON
+    and equal to the model evaluated on the implementation's own parse -/
+def judgeVisAny (c : Case) (o : ObsLine) : Verdict :=
+  if (c.note.getObjValAs? Bool "hostile").toOption.getD false then
+    match o.st with
+    | "err" => .ok
+    | "ok" =>
+      let got := (o.obs.getObjValAs? String "out").toOption.getD ""
+      let valid := (o.obs.getObjValAs? Bool "json").toOption.getD false
+      if !valid then .violation "visual output is not valid JSON" got
+      else match visExpOnImplParse c o with
+        | some exp => if got ≠ exp then .disagree "visual output" exp got else .ok
+        | none => .disagree "visual output" "(implementation parse unreadable)" got
+    | _ => .crash s!"{o.st}: {o.code}"
+  else judgeVis true c o
+
 end Drv
 
 namespace Drv
